@@ -275,7 +275,7 @@ def case(spec):
 def main(tier, seed, scale=1.0):
     BIN['san'] = build.ensure('san')
     nsweep = len(ALPHA) if tier == 'thorough' else max(2, int(len(ALPHA) * min(1.0, scale)))
-    nrand = int((40 if tier == 'quick' else 5000) * scale)
+    nrand = int((90 if tier == 'quick' else 5000) * scale)
     specs = [(seed, 'sweep', i, tier) for i in range(nsweep)] + [(seed, 'rand', i, tier) for i in range(nrand)]
     rule = ('sweep cases: for every printing character c except . : # * a catalogue containing c in every position of '
             '1..3 character names, and the patterns c, cA, Ac, c#, #c, c*, *c, cc, ac, ca, #, ##, *, c#c, *c*; random '
